@@ -2423,3 +2423,15 @@ V('c06-literal-plus-unbounded-digits', 'C06', 'R6.10', IMAPINIT,
 V('c06-literal-plus-twin-10-digits', 'C06', 'R6.10', IMAPINIT,
   "_literal_plus = re.compile(br'{(\\d{1,20})\\+}\\r?\\n$')",
   "_literal_plus = re.compile(br'{(\\d{1,10})\\+}\\r?\\n$')", expect='silent')
+V('c06-server-attempt-no-valueerror', 'C06', 'R6.13', IMAPINIT,
+  '''            except ValueError as exc:
+                # e.g. the response was not valid UTF-8
+                raise AuthenticationError('Invalid response.') from exc
+''', '')
+V('c06-compare-secret-unguarded-prep', 'C06', 'R6.13', 'pymap/user.py',
+  '''            try:
+                prepared = prepare(value)
+            except ValueError:
+                return False  # prohibited by the string preparation
+            return hash_context.verify(prepared, prepare(password))''',
+  '''            return hash_context.verify(prepare(value), prepare(password))''')
